@@ -204,6 +204,13 @@ func runReader(comp []byte, k int, br bool, ctor func(io.Reader) wsflate.Decompr
 	return hx(back), e
 }
 
+// noResetComp hides flate.Writer's Reset(io.Writer): only Write, Flush and Close are offered.
+type noResetComp struct{ f *flate.Writer }
+
+func (c noResetComp) Write(p []byte) (int, error) { return c.f.Write(p) }
+func (c noResetComp) Flush() error                { return c.f.Flush() }
+func (c noResetComp) Close() error                { return c.f.Close() }
+
 func flateDec(r io.Reader) wsflate.Decompressor { return flate.NewReader(r) }
 
 func init() {
@@ -299,6 +306,32 @@ func init() {
 		back, e := runReader(dst.Bytes(), k, a[3] == "1", flateDec)
 		return fmt.Sprintf("%s out=%s back=%s rerr=%s", strings.Join(res, ","), hx(dst.Bytes()), back, e)
 	}
+	// flr <level> <hide> <m1> <m2> <how>: one wsflate.Writer used for two messages, Reset to a new destination in
+	// between (how = f: Flush, c: Close ends the first message). hide=1: the compressor offers no Reset(io.Writer),
+	// so the writer has to build a new one; each message must inflate on its own.
+	ops["flr"] = func(a []string) string {
+		level, _ := strconv.Atoi(a[0])
+		var d1, d2 bytes.Buffer
+		w := wsflate.NewWriter(&d1, func(w io.Writer) wsflate.Compressor {
+			f, _ := flate.NewWriter(w, level)
+			if a[1] == "1" {
+				return noResetComp{f}
+			}
+			return f
+		})
+		var res []string
+		_, err := w.Write(unhx(a[2]))
+		res = append(res, flErr(err))
+		if a[4] == "c" {
+			res = append(res, flErr(w.Close()))
+		} else {
+			res = append(res, flErr(w.Flush()))
+		}
+		w.Reset(&d2)
+		_, err = w.Write(unhx(a[3]))
+		res = append(res, flErr(err), flErr(w.Flush()))
+		return fmt.Sprintf("%s out1=%s out2=%s", strings.Join(res, ","), hx(d1.Bytes()), hx(d2.Bytes()))
+	}
 	ops["ind"] = func(a []string) string {
 		msg := unhx(a[1])
 		var comp []byte
@@ -385,6 +418,8 @@ func init() {
 	}
 	register("C12", genC12)
 	register("C12", genReaderReuse)
+	register("C12", genWriterReuse)
+	register("C18", genWriterReuse)
 	register("C18", genReaderReuse)
 }
 
@@ -520,6 +555,26 @@ func genC12(tier string, r *rng) {
 
 // genReaderReuse: a decompression reader reused for the next message behaves as new (C12 any source kind,
 // C18 reset-as-new).
+// genWriterReuse: one compression writer for message after message (messages sharing substrings, so that a
+// compressor carried over would refer back into the previous message).
+func genWriterReuse(tier string, r *rng) {
+	msgs := [][]byte{[]byte("hello hello hello, the same words again and again"), bytes.Repeat([]byte("abc"), 200), r.bytes(60), []byte("a"), nil}
+	for _, level := range []int{-2, -1, 0, 1, 9} {
+		for _, hide := range []string{"0", "1"} {
+			for _, how := range []string{"f", "c"} {
+				for i, m1 := range msgs {
+					for _, m2 := range [][]byte{m1, msgs[(i+1)%len(msgs)]} {
+						if tier == "quick" && (level+i+len(m2))%2 == 0 && i > 1 {
+							continue
+						}
+						run(fmt.Sprintf("flr %d %s %s %s %s", level, hide, hx(m1), hx(m2), how))
+					}
+				}
+			}
+		}
+	}
+}
+
 func genReaderReuse(tier string, r *rng) {
 	msgs := [][]byte{nil, []byte("a"), []byte("hello hello hello"), bytes.Repeat([]byte("z"), 300), r.bytes(40)}
 	for _, enc := range []string{"stored", "stored7", "fixed", "rle"} {
